@@ -24,7 +24,7 @@ def sh(cmd, cwd=None, env=None, timeout=3600):
 
 def main():
     out_dir, k, name, broken = sys.argv[1:5]
-    checks = sys.argv[5:] or [broken]
+    checks = [broken] + [c for c in sys.argv[5:] if c != broken]
     wt = f"/tmp/mut/{name}"
     tgt = f"/tmp/mut/{name}-target"
     os.makedirs("/tmp/mut", exist_ok=True)
@@ -44,6 +44,11 @@ def main():
         meta["ran"].append({"cmd": "cargo test -p kira --offline --test seed_demo (unchanged tree)", "demo_passes": ok_without})
         # 2. patch applies, suite passes
         rc, o = sh(f"git apply {patch}", cwd=wt)
+        if rc != 0:
+            # context moved by later fix commits: retry with fuzz
+            rc, o2 = sh(f"patch -p1 --fuzz=3 --no-backup-if-mismatch < {patch}", cwd=wt)
+            o += o2
+            meta["applied_with_fuzz"] = rc == 0
         meta["patch_applies"] = rc == 0
         if rc != 0:
             meta["error"] = o[-2000:]
